@@ -255,6 +255,70 @@ def font_cases(rng, tier):
         yield Case("typed_roundtrip", fields_line("Font", d, []), check=check_font(d), model=False, tags=tags)
 
 
+# ---------------------------------------------------------------------------------------------- containers on their own
+
+def container_value(rng, name, G):
+    """a primitive in the image of the writer of the named container type (so sentence 1 demands: it is written back
+    identically): arrays of optionals / of untyped primitives with null elements at every position, nested"""
+    def opt_ints(allow_empty=True):
+        return [None if rng.random() < 0.4 else rng.randint(-9, 99) for _ in range(rng.randrange(0 if allow_empty else 1, 5))]
+    if name == "Vec<Option<i32>>":
+        return opt_ints()
+    if name == "Vec<Option<Name>>":
+        return [None if rng.random() < 0.4 else G.name() for _ in range(rng.randrange(5))]
+    if name in ("Vec<Primitive>", "Option<Vec<Primitive>>"):
+        v = [None if rng.random() < 0.35 else G.any_prim(1) for _ in range(rng.randrange(5))]
+        if rng.random() < 0.4:
+            v.insert(rng.randrange(len(v) + 1), [3, None, 2])
+        if name.startswith("Option") and rng.random() < 0.1:
+            return None
+        return v
+    if name == "Vec<Option<Dictionary>>":
+        return [None if rng.random() < 0.4 else {k: rng.randint(0, 9) for k in rng.sample(["Predictor", "Columns", "a"], rng.randrange(3))}
+                for _ in range(rng.randrange(5))]
+    if name == "Vec<Option<Vec<Option<i32>>>>":
+        return [None if rng.random() < 0.35 else opt_ints() for _ in range(rng.randrange(4))]
+    raise ValueError(name)
+
+
+CONTAINERS = ["Vec<Option<i32>>", "Vec<Option<Name>>", "Vec<Primitive>", "Option<Vec<Primitive>>", "Vec<Option<Dictionary>>",
+              "Vec<Option<Vec<Option<i32>>>>"]
+
+
+def sort_keys(v):
+    if isinstance(v, dict):
+        return {k: sort_keys(v[k]) for k in sorted(v)}
+    if isinstance(v, list):
+        return [sort_keys(x) for x in v]
+    return v
+
+
+def check_container(v):
+    want = canon(sort_keys(v))          # the harness prints dictionaries with sorted keys
+
+    def chk(r):
+        if r[0] != "OK":
+            return "%s %s" % (r[0], r[1])
+        f = r[1]
+        if f[0] != b"ok" or len(f) < 6 or f[3] != b"ok":
+            return "round trip failed: " + b" ".join(f[:5]).decode("latin-1")
+        if f[1] != want:
+            return "written form of the value read from %r is %r" % (v, T.uncanon(f[1]))
+        if f[1] != f[4]:
+            return "second write differs"
+        return None
+    return chk
+
+
+def container_cases(rng, tier):
+    for name in CONTAINERS:
+        for _ in range(40 if tier == "quick" else 600):
+            G = T.Gen(S(), rng)
+            v = container_value(rng, name, G)
+            tags = ["container:" + name] + (["null-element"] if isinstance(v, list) and any(x is None for x in v) else [])
+            yield Case("typed_roundtrip", fields_line(name, v, []), check=check_container(v), tags=tags)
+
+
 WRONG = [None, 7, -1, 2.5, True, Name("Bogus"), b"str", [], [Name("x"), 1], {}, {"a": 1}, Ref(99)]
 
 
@@ -315,6 +379,7 @@ def generate(rng, tier):
         if not (s["read"] and s["write"]):
             continue
         yield from struct_cases(rng, i, n, tier)
+    yield from container_cases(rng, tier)
     yield from stream_cases(rng, tier)
     yield from font_cases(rng, tier)
     for _ in range(40 if tier == "quick" else 600):          # explicit destinations: outside the Coq model
